@@ -40,6 +40,8 @@ def cases(tier, seed):
     nf, nv = (160, 4000) if tier == "quick" else (2000, 100000)
     for i in range(nf):
         yield {"kind": "file", "seed": int(seed) * 100003 + i}
+    for i in range(10):      # the float regimes are required ones: do not leave them to chance
+        yield {"kind": "file", "seed": int(seed) * 100003 + nf + i, "force": i}
     for i in range(0, nv, 100):
         yield {"kind": "vectors", "n": 100, "seed": int(seed) * 100003 + i}
     for i in range(max(4, nf // 10)):
@@ -157,6 +159,9 @@ def _file(case, ctx):
 
     rng = np.random.default_rng([case["seed"], 16])
     nbits = int(rng.choice(DEPTHS))
+    force = case.get("force")
+    if force is not None:
+        nbits = 32
     nch = int(rng.choice([16, 32, 64]))
     N = int(rng.integers(60, 300))
     top = sigfile.maxval(nbits) if nbits != 32 else 255
@@ -173,7 +178,7 @@ def _file(case, ctx):
             X[rng.integers(0, N, size=3), c] = top                                            # skew/kurtosis spikes
         else:
             X[:, c] = top if top > 1 else 1                                                   # stuck
-    neg32 = nbits == 32 and case["seed"] % 2 == 1
+    neg32 = nbits == 32 and (case["seed"] % 2 == 1 if force is None else force % 2 == 1)
     if neg32:   # float samples are signed: a band whose levels are negative (e.g. after baseline removal)
         X = X - 2.0 * top
         ctx.count("regime:negative_float_samples")
@@ -205,7 +210,11 @@ def _file(case, ctx):
         return out
 
     mval = None if rng.random() < 0.5 else float(rng.integers(0, top + 1))
-    if mval is not None and nbits == 32 and case["seed"] % 3 == 0:
+    if force is not None:
+        mval = [-1.0, None, -37.5, None, 1e6, -1000.0, 0.125, None, -2.5, 300.0][force]
+        if mval is not None:
+            ctx.count("regime:float_mask_value_outside_0_255")
+    elif mval is not None and nbits == 32 and case["seed"] % 3 == 0:
         mval = float(np.random.default_rng([case["seed"], 163]).choice([-1.0, -37.5, -1000.0, 0.125, 1e6]))
         ctx.count("regime:float_mask_value_outside_0_255")
     gulp = int(rng.choice([1, 7, max(1, N // 3), N, 10 * N]))
